@@ -84,7 +84,7 @@ func prelude(c *Ctx, w *sworld, max int) {
 type c01msg struct{ data []byte }
 
 func runFraming(c *Ctx) error {
-	c.Res.Rule = "random + boundary-weighted message sequences (0, 4 KiB flush threshold ±, 16 KiB ±, 1 MiB minus/plus the 16/32-byte GCM overhead), each assembled by SendMessage / SendPartialMessage+SendMessage / WriteMessage*+EndMessage in random compositions (every composition for messages ≤ 6 bytes), plaintext and AES-GCM, received by ReceiveCompleteMessage or StartMessageRead/ReadMessageBytes/EndMessageRead or Message.GetRemainingBytes; + AES-GCM sessions restored through NewStreamWithCryptoState whose base IV word is within 5 frames of 2^32 (nonce word wraps mid-session), 3-9 messages in both directions, every sending style (single, partials, buffered, typed layer) × every receive API; distinct by op-sequence hash; non-trivial = ≥2 frames on the wire or a size within 64 bytes of a limit"
+	c.Res.Rule = "random + boundary-weighted message sequences (0, 4 KiB flush threshold ±, 16 KiB ±, 1 MiB minus/plus the 16/32-byte GCM overhead), each assembled by SendMessage / SendPartialMessage+SendMessage / WriteMessage*+EndMessage in random compositions (every composition for messages ≤ 6 bytes), plaintext and AES-GCM, received by ReceiveCompleteMessage or StartMessageRead/ReadMessageBytes/EndMessageRead or Message.GetRemainingBytes; + runs of 2-5 messages whose last frame is EMPTY (partials + empty final SendMessage, buffered writer flushed by its last write, typed Message flushed right before FinishMessage, wholly empty messages, empty partial frames) followed by further messages, plain and AES-GCM, read mostly through the typed layer; + AES-GCM sessions restored through NewStreamWithCryptoState whose base IV word is within 5 frames of 2^32 (nonce word wraps mid-session), 3-9 messages in both directions, every sending style (single, partials, buffered, typed layer) × every receive API; distinct by op-sequence hash; non-trivial = ≥2 frames on the wire or a size within 64 bytes of a limit"
 	var cases []Case
 	n := c.Pick(700, 12000)
 	// exhaustive compositions of short messages (all ways to cut m bytes into writes), both modes
@@ -110,6 +110,11 @@ func runFraming(c *Ctx) error {
 	}
 	for i := 0; i < n; i++ {
 		cases = append(cases, framingRandom(c, i))
+	}
+	// messages whose LAST frame is empty (the end-of-message mark travels alone), followed by further
+	// messages: boundaries must survive through every receive API, the typed layer above all
+	for i := 0; i < c.Pick(120, 1500); i++ {
+		cases = append(cases, framingEmptyEOM(c, i))
 	}
 	// sessions whose base IV word sits just below 2^32 (the IV is 16 random bytes: any word is possible),
 	// so that IV word + frame counter passes 2^32 in mid-session: several messages each way
@@ -436,6 +441,95 @@ func framingWrap(c *Ctx, idx int) Case {
 		c.Sample(map[string]any{"label": "wrap-iv", "ops": abbreviate(w.ops), "real": abbreviate(w.real)})
 	}
 	return Case{Label: fmt.Sprintf("wrap-iv#%d", idx), Ops: w.ops, Real: w.real}
+}
+
+// framingEmptyEOM: 2-5 messages in a row; most of them end in a frame that carries the end-of-message
+// flag and NO payload — which ordinary sender chunking produces: explicit partial frames followed by an
+// empty final SendMessage, a buffered writer whose last WriteMessage crossed the flush threshold (so
+// EndMessage has nothing left), a typed Message flushed right before FinishMessage, a wholly empty
+// message. Read back through the typed layer (Message.GetRemainingBytes; two cases in three) or one of
+// the stream-level receive APIs; oracle: same messages, same boundaries, nothing extra.
+func framingEmptyEOM(c *Ctx, idx int) Case {
+	enc := idx%2 == 1
+	w := framingSetup(c, enc)
+	if enc && c.Rng.Intn(6) == 0 {
+		w = framingSetupWrap(c)
+	}
+	nm := 2 + c.Rng.Intn(4)
+	var sent [][]byte
+	small := func() []byte { return randBytes(c, 1+c.Rng.Intn(12)) }
+	for i := 0; i < nm; i++ {
+		var msg []byte
+		ok := true
+		style := c.Rng.Intn(6)
+		if i == 0 {
+			style = idx / 2 % 5 // the first message always ends in an empty frame, every style in turn
+		}
+		switch style {
+		case 0: // explicit partial frames, then an empty final frame
+			for j := 0; j < c.Rng.Intn(3)+1 && ok; j++ {
+				d := small()
+				if c.Rng.Intn(5) == 0 {
+					d = payloadOf(c, pickSize(c, false))
+				}
+				ok = w.send("A", 0, d) == nil
+				msg = append(msg, d...)
+			}
+			ok = ok && w.send("A", 1, nil) == nil
+		case 1: // buffered writer: the last write reaches the threshold and flushes; EndMessage sends an empty frame
+			w.start("A")
+			if c.Rng.Intn(2) == 0 {
+				d := small()
+				ok = w.write("A", d) == nil
+				msg = append(msg, d...)
+			}
+			d := payloadOf(c, 4096-len(msg)+c.Rng.Intn(3)*c.Rng.Intn(50))
+			ok = ok && w.write("A", d) == nil
+			msg = append(msg, d...)
+			ok = ok && w.end("A") == nil
+		case 2: // typed message, flushed right before FinishMessage
+			var chunks [][]byte
+			for j := 0; j < 1+c.Rng.Intn(3); j++ {
+				d := small()
+				chunks = append(chunks, d)
+				msg = append(msg, d...)
+			}
+			ok = w.typedChunks("A", chunks) == nil
+		case 3: // a wholly empty message (one empty end-of-message frame)
+			switch c.Rng.Intn(3) {
+			case 0:
+				ok = w.send("A", 1, nil) == nil
+			case 1:
+				w.start("A")
+				ok = w.end("A") == nil
+			default:
+				ok = w.typedChunks("A", nil) == nil
+			}
+		case 4: // empty partial frames in the middle, empty final frame
+			d := small()
+			ok = w.send("A", 0, nil) == nil && w.send("A", 0, d) == nil && w.send("A", 0, nil) == nil && w.send("A", 1, nil) == nil
+			msg = d
+		default: // an ordinary message in between
+			msg = small()
+			ok = w.send("A", 1, msg) == nil
+		}
+		if !ok {
+			c.Violate(Violation{Property: "C01", Key: "C01:sender-rejects:empty-final-frame:" + modeOf(w), What: "the sender refused a small message whose last frame is empty",
+				Ops: append([]string{}, w.ops...), Expected: "accepted", Observed: w.real[len(w.real)-1]})
+			break
+		}
+		if msg == nil {
+			msg = []byte{}
+		}
+		sent = append(sent, msg)
+		c.Count(fmt.Sprintf("empty-eom:style%d", style))
+	}
+	api := 2 // typed layer
+	if idx%3 == 2 {
+		api = c.Rng.Intn(2)
+	}
+	c.Count("kind:empty-eom")
+	return framingFinish(c, w, fmt.Sprintf("empty-eom#%d enc=%v", idx, enc), sent, true, api)
 }
 
 func framingComposition(c *Ctx, enc bool, m, mask int) Case {
